@@ -41,16 +41,24 @@ static std::vector<Ent> sparse_entries(Rng &rng, long n, long m, long nnz, bool 
 static std::vector<Ent> dense_entries(Rng &rng, long n, long m, int arb) {      // column-major order of the file
     std::vector<Ent> e; for (long k = 0; k < n * m; ++k) { Ent x; x.i = x.j = 0; x.re = value(rng, arb); x.im = value(rng, arb); x.iv = intvalue(rng); e.push_back(x); } return e;
 }
-static void put64(Bytes &b, uint64_t x) { for (int k = 0; k < 8; ++k) b += (char)((x >> (8 * k)) & 0xff); }
-// binary CRS file with w words per value
-static Bytes bin_crs(Rng &rng, long n, long m, int w, int dens) {
+static void putle(Bytes &b, uint64_t x, int bytes) { for (int k = 0; k < bytes; ++k) b += (char)((x >> (8 * k)) & 0xff); }
+static void put64(Bytes &b, uint64_t x) { putle(b, x, 8); }
+// the instantiations of the binary readers (type token of the io_bin_* ops): bytes per column index, a value = wn words of ws bytes
+struct BinT { const char *tok; int csz, ws, wn; int vsz() const { return ws * wn; } };
+static const BinT BIN_SPARSE[] = { { "1", 8, 8, 1 }, { "2", 8, 8, 2 }, { "f", 8, 4, 1 }, { "i1", 4, 8, 1 }, { "i2", 4, 8, 2 }, { "if", 4, 4, 1 } };
+static const BinT BIN_DENSE[] = { { "1", 0, 8, 1 }, { "2", 0, 8, 2 }, { "f", 0, 4, 1 } };
+static const BinT& bin_t(const std::string &tok) { for (const BinT &t : BIN_SPARSE) if (tok == t.tok) return t; throw bad_input("type"); }
+static uint64_t nice_word(Rng &rng, int ws) { double d = nice(rng); if (ws == 8) return bits(d); float f = (float)d; uint32_t u; memcpy(&u, &f, 4); return u; }
+static uint64_t any_word(Rng &rng, int ws) { uint64_t u = rng.next(); return ws == 8 ? u : (u & 0xffffffffULL); }
+// binary CRS file of the instantiation T (hand-formatted: column indices of T.csz bytes, values of T.vsz() bytes)
+static Bytes bin_crs(Rng &rng, long n, long m, const BinT &T, int dens) {
     std::vector<uint64_t> ptr(1, 0), col; for (long i = 0; i < n; ++i) { for (long j = 0; j < m; ++j) if (rng.range(0, 99) < dens) col.push_back((uint64_t)j); ptr.push_back(col.size()); }
     if (rng.coin()) for (long i = 0; i < n; ++i) for (uint64_t k = ptr[i + 1]; k > ptr[i] + 1; --k) std::swap(col[k - 1], col[ptr[i] + rng.next() % (k - ptr[i])]);   // unsorted rows
-    Bytes b; put64(b, (uint64_t)n); for (auto p : ptr) put64(b, p); for (auto c : col) put64(b, c);
-    for (size_t k = 0; k < col.size() * (size_t)w; ++k) put64(b, bits(nice(rng)));
+    Bytes b; put64(b, (uint64_t)n); for (auto p : ptr) put64(b, p); for (auto c : col) putle(b, c, T.csz);
+    for (size_t k = 0; k < col.size() * (size_t)T.wn; ++k) putle(b, nice_word(rng, T.ws), T.ws);
     return b;
 }
-static Bytes bin_dense(Rng &rng, long n, long m, int w) { Bytes b; put64(b, (uint64_t)n); put64(b, (uint64_t)m); for (long k = 0; k < n * m * w; ++k) put64(b, bits(nice(rng))); return b; }
+static Bytes bin_dense(Rng &rng, long n, long m, const BinT &T) { Bytes b; put64(b, (uint64_t)n); put64(b, (uint64_t)m); for (long k = 0; k < n * m * T.wn; ++k) putle(b, nice_word(rng, T.ws), T.ws); return b; }
 
 struct Base { std::string op, kind; Bytes file; long b, e; };
 static std::string read_line(const Base &B, const std::string &label, const Bytes &file) {
@@ -76,14 +84,17 @@ static std::vector<Base> base_files(Rng &rng) {
         Base B; B.op = "io_mm_read_dense"; B.kind = kinds[k]; B.file = mm_text(kinds[k], false, false, n, m, dense_entries(rng, n, m, 0), o); range(n, B.b, B.e);
         if (B.file.size() <= 200) { v.push_back(B); break; }
     }
-    for (int w = 1; w <= 2; ++w) for (int tries = 0; tries < 200; ++tries) {
-        long n = rng.range(2, 4), m = rng.range(2, 4);
-        Base B; B.op = "io_bin_read_crs"; B.kind = std::to_string(w); B.file = bin_crs(rng, n, m, w, 50); range(n, B.b, B.e);
-        if (B.file.size() <= 200 && B.file.size() >= 8 + 8 * (size_t)(n + 1) + 2 * (8 + 8 * (size_t)w)) { v.push_back(B); break; }
+    // binary CRS: every combination of sizeof(Col) / sizeof(Val) except 4/4; half of the bases are read with a row
+    // range, most of those with stored entries in front of the range
+    auto crs_range = [&](long n, long &b, long &e) { if (rng.coin() && n > 1) { b = rng.coin(2, 3) ? rng.range(1, n - 1) : 0; e = rng.coin() ? -1 : rng.range(b, n); } else { b = e = -1; } };
+    for (const char *tok : { "1", "2", "i1", "f", "i2" }) for (int tries = 0; tries < 200; ++tries) {
+        const BinT &T = bin_t(tok); long n = rng.range(2, 4), m = rng.range(2, 4);
+        Base B; B.op = "io_bin_read_crs"; B.kind = tok; B.file = bin_crs(rng, n, m, T, 50); crs_range(n, B.b, B.e);
+        if (B.file.size() <= 200 && B.file.size() >= 8 + 8 * (size_t)(n + 1) + 2 * (size_t)(T.csz + T.vsz())) { v.push_back(B); break; }
     }
-    for (int w = 1; w <= 2; ++w) for (int tries = 0; tries < 200; ++tries) {
+    for (const BinT &T : BIN_DENSE) for (int tries = 0; tries < 200; ++tries) {
         long n = rng.range(1, 4), m = rng.range(1, 4); if (n * m < 2) continue;
-        Base B; B.op = "io_bin_read_dense"; B.kind = std::to_string(w); B.file = bin_dense(rng, n, m, w); range(n, B.b, B.e);
+        Base B; B.op = "io_bin_read_dense"; B.kind = T.tok; B.file = bin_dense(rng, n, m, T); range(n, B.b, B.e);
         if (B.file.size() <= 200) { v.push_back(B); break; }
     }
     return v;
@@ -128,13 +139,45 @@ static void generate(Rng &rng, const Opts &o, std::vector<std::string> &lines) {
             n = rng.range(0, 5); m = rng.range(0, 4); pick_range(rng, n, b, e);
             { Line l; l << "io_mm_rt_dense" << "valid" << kind << b << e << n << m << n * m; for (long q = 0; q < n * m; ++q) val(l); lines.push_back(l.get()); }
         }
-        for (long w = 1; w <= 2; ++w) {
-            auto val = [&](Line &l) { for (long q = 0; q < w; ++q) l << std::to_string((unsigned long long)(rng.coin(1, 4) ? rng.next() : bits(nice(rng)))); };
+        for (const BinT &T : BIN_SPARSE) {
+            if (it % 2 && T.csz == 4 && T.ws == 4) continue;     // int/float (4/4): every other round
+            auto val = [&](Line &l) { for (long q = 0; q < T.wn; ++q) l << std::to_string((unsigned long long)(rng.coin(1, 4) ? any_word(rng, T.ws) : nice_word(rng, T.ws))); };
             long n = rng.range(0, 6), m = rng.range(0, 6), b, e; pick_range(rng, n, b, e);
-            { Line l; l << "io_bin_rt_crs" << "valid" << w << b << e; crs_tokens(l, rng, n, m, (int)rng.range(0, 70), val); lines.push_back(l.get()); }
-            n = rng.range(0, 5); m = rng.range(0, 4); pick_range(rng, n, b, e);
-            { Line l; l << "io_bin_rt_dense" << "valid" << w << b << e << n << m << n * m; for (long q = 0; q < n * m; ++q) val(l); lines.push_back(l.get()); }
+            { Line l; l << "io_bin_rt_crs" << "valid" << T.tok << b << e; crs_tokens(l, rng, n, m, (int)rng.range(0, 70), val); lines.push_back(l.get()); }
         }
+        for (const BinT &T : BIN_DENSE) {
+            auto val = [&](Line &l) { for (long q = 0; q < T.wn; ++q) l << std::to_string((unsigned long long)(rng.coin(1, 4) ? any_word(rng, T.ws) : nice_word(rng, T.ws))); };
+            long n = rng.range(0, 5), m = rng.range(0, 4), b, e; pick_range(rng, n, b, e);
+            { Line l; l << "io_bin_rt_dense" << "valid" << T.tok << b << e << n << m << n * m; for (long q = 0; q < n * m; ++q) val(l); lines.push_back(l.get()); }
+        }
+    }
+
+    // 2b. row-range reads of binary CRS files that start behind stored entries (row_beg > 0 and ptr[row_beg] > 0: the
+    //     column block is entered at ptr[row_beg]*sizeof(Col), the value block at ptr[row_beg]*sizeof(Val)), for every
+    //     combination of sizeof(Col) in {4, 8} and sizeof(Val) in {4, 8, 16}: through the real writer (io_bin_rt_crs) and
+    //     on hand-formatted files (io_bin_read_crs); a few ranges per matrix incl. the last rows (values at the end of
+    //     the file) and open ends
+    for (long it = 0; it < 6 * scale; ++it) for (const BinT &T : BIN_SPARSE) {
+        auto val = [&](Line &l) { for (long q = 0; q < T.wn; ++q) l << std::to_string((unsigned long long)(rng.coin(1, 4) ? any_word(rng, T.ws) : nice_word(rng, T.ws))); };
+        long n = rng.range(2, 8), m = rng.range(1, 6); int dens = (int)rng.range(35, 90);
+        Line body; crs_tokens(body, rng, n, m, dens, val);          // one matrix, several ranges
+        std::vector<std::pair<long, long>> ranges = { { n - 1, n }, { n - 1, -1 }, { 1, n } };
+        for (int q = 0; q < 3; ++q) { long b = rng.range(1, n - 1), e = rng.range(b + 1, n); ranges.push_back({ b, e }); }
+        for (auto &be : ranges) lines.push_back((Line() << "io_bin_rt_crs" << "valid" << T.tok << be.first << be.second).get() + " " + body.get());
+        n = rng.range(2, 8); m = rng.range(1, 6);
+        Base B; B.op = "io_bin_read_crs"; B.kind = T.tok; B.file = bin_crs(rng, n, m, T, (int)rng.range(35, 90));
+        for (int q = 0; q < 4; ++q) { B.b = rng.range(1, n - 1); B.e = q == 0 ? -1 : q == 1 ? n : rng.range(B.b + 1, n); lines.push_back(read_line(B, "valid", B.file)); }
+    }
+    // … and of binary dense files (rows in front of the range: the value block is entered at row_beg*m*sizeof(Val))
+    for (long it = 0; it < 4 * scale; ++it) for (const BinT &T : BIN_DENSE) {
+        auto val = [&](Line &l) { for (long q = 0; q < T.wn; ++q) l << std::to_string((unsigned long long)(rng.coin(1, 4) ? any_word(rng, T.ws) : nice_word(rng, T.ws))); };
+        long n = rng.range(2, 6), m = rng.range(1, 4);
+        Line body; body << n << m << n * m; for (long q = 0; q < n * m; ++q) val(body);
+        long b = rng.range(1, n - 1);
+        for (auto &be : std::vector<std::pair<long, long>>{ { n - 1, n }, { 1, -1 }, { b, rng.range(b + 1, n) } })
+            lines.push_back((Line() << "io_bin_rt_dense" << "valid" << T.tok << be.first << be.second).get() + " " + body.get());
+        Base B; B.op = "io_bin_read_dense"; B.kind = T.tok; B.file = bin_dense(rng, n, m, T); B.b = rng.range(1, n - 1); B.e = rng.coin() ? -1 : rng.range(B.b + 1, n);
+        lines.push_back(read_line(B, "valid", B.file));
     }
 
     // 3. hand-formatted valid files with format variations (comments, CRLF, tabs, short numbers, symmetric storage)
@@ -371,6 +414,39 @@ static void directed(std::vector<std::string> &lines) {
     bin(DD, 1, { 1ULL << 40, 1 });
     bin(DD, 2, { 1, 2, one, two, three, one });
     bin(DD, 2, { 1, 2, one, two, three });
+    // the other instantiations: a file is n | ptr (8 bytes each) | col (csz bytes each) | val (vsz bytes each)
+    auto binT = [&](const char *op, const char *tok, const std::vector<uint64_t> &head, const std::vector<uint64_t> &col, const std::vector<uint64_t> &valwords,
+                    long b = -1, long e = -1, long cut = 0) {
+        const BinT &T = bin_t(tok); Bytes f; for (auto x : head) put64(f, x); for (auto x : col) putle(f, x, T.csz); for (auto x : valwords) putle(f, x, T.ws);
+        if (cut) f = f.substr(0, f.size() - (size_t)cut);
+        lines.push_back((Line() << op << "directed" << tok << hex(f) << b << e).get()); };
+    const uint64_t f1 = 0x3f800000u, f2 = 0x40000000u, f3 = 0x40400000u, f4 = 0x40800000u, four = bits(4.0);
+    // 3 rows {2} {0,1} {1}: every row range, for every combination of column and value sizes
+    for (const BinT &T : BIN_SPARSE) {
+        std::vector<uint64_t> vw; const uint64_t dv[] = { one, two, three, four }, fv[] = { f1, f2, f3, f4 };
+        for (int k = 0; k < 4; ++k) for (int q = 0; q < T.wn; ++q) vw.push_back(T.ws == 8 ? (q ? bits(-(double)(k + 1)) : dv[k]) : fv[k]);
+        for (long b = 0; b <= 3; ++b) for (long e = b; e <= 4; ++e) binT(C, T.tok, { 3, 0, 1, 3, 4 }, { 2, 1, 0, 1 }, vw, b, e);
+        binT(C, T.tok, { 3, 0, 1, 3, 4 }, { 2, 1, 0, 1 }, vw); binT(C, T.tok, { 3, 0, 1, 3, 4 }, { 2, 1, 0, 1 }, vw, 2, -1); binT(C, T.tok, { 3, 0, 1, 3, 4 }, { 2, 1, 0, 1 }, vw, -1, 2);
+        for (long cut = 1; cut <= T.vsz(); ++cut) {                 // the last value incomplete: only the rows in front of it can be read
+            binT(C, T.tok, { 3, 0, 1, 3, 4 }, { 2, 1, 0, 1 }, vw, 1, 2, cut); binT(C, T.tok, { 3, 0, 1, 3, 4 }, { 2, 1, 0, 1 }, vw, 2, 3, cut); binT(C, T.tok, { 3, 0, 1, 3, 4 }, { 2, 1, 0, 1 }, vw, -1, -1, cut);
+        }
+        binT(C, T.tok, { 3, 0, 1, 5, 4 }, { 2, 1, 0, 1 }, vw, 1, 2);   // corrupted ptr seen by a partial read
+        binT(C, T.tok, { 3, 0, 1, 3, 9 }, { 2, 1, 0, 1 }, vw, 1, 3);   // nnz larger than stored: value block displaced
+        binT(C, T.tok, { 3, 0, 1, 3, 3 }, { 2, 1, 0, 1 }, vw, 1, 3);   // nnz smaller than ptr.back(): consistent for rows [1,3) only when ptr.back <= nnz
+    }
+    binT(C, "i1", { 1, 0, 2 }, { 0xffffffffULL, 0x80000000ULL }, { one, two });      // int columns -1, INT_MIN
+    binT(C, "i1", { 1, 0, 2 }, { 0x7fffffffULL, 0 }, { one, two });
+    binT(C, "f", { 1, 0, 2 }, { M1, 1ULL << 63 }, { f1, f2 });
+    binT(C, "if", { 2, 0, 1, 2 }, { 7, 3 }, { 0x7fc00000u, 0xff800000u }, 1, 2);   // float NaN / -inf bit patterns
+    binT(DD, "f", { 2, 2 }, {}, { f1, f2, f3, f4 });
+    binT(DD, "f", { 2, 2 }, {}, { f1, f2, f3, f4 }, 1, 2);
+    binT(DD, "f", { 2, 2 }, {}, { f1, f2, f3, f4 }, 1, 2, 1);
+    binT(DD, "f", { 2, 2 }, {}, { f1, f2, f3, f4 }, 0, 1, 1);
+    binT(DD, "f", { 3, 1 }, {}, { f1, f2, f3 }, 2, 3);
+    lines.push_back((Line() << "io_bin_read_dense" << "directed" << "i1" << "00" << -1L << -1L).get());    // no column type in a dense op: bad-input
+    lines.push_back((Line() << "io_bin_read_crs" << "directed" << "i3" << "00" << -1L << -1L).get());
+    lines.push_back((Line() << "io_bin_read_crs" << "directed" << "i" << "00" << -1L << -1L).get());
+    lines.push_back((Line() << "io_bin_rt_crs" << "directed" << "f" << -1L << -1L << 1L << 1L << 1L << 0L << "4294967296").get());   // value does not fit a 4-byte word
     lines.push_back((Line() << "io_bin_crs_size" << "directed" << "-").get());
     lines.push_back((Line() << "io_bin_crs_size" << "directed" << "01020304050607").get());
     lines.push_back((Line() << "io_bin_crs_size" << "directed" << "0102030405060708").get());
